@@ -203,6 +203,7 @@ class _ReadSourceGenerator:
                     prev_was_bits = True
 
                 if bits_remaining == 0 or prev_bits_type != field_type:
+                    prev_bits_type = field_type
                     bits_remaining = (size * 8) - field.bits
                     bits_rollover = True
 
